@@ -22,6 +22,16 @@ import c02_cmain as CM
 import c02_gen as G
 from exo.core.LoopIR import LoopIR, T
 
+class PrivateInterp(export.Interp):
+    """client of the run's private copy of the extracted interpreter (export.INTERP is set by props/C02.py): never
+    tries to rebuild the shared binary, which another check may be rebuilding at this very moment"""
+
+    def __init__(self):
+        import subprocess
+        self.p = subprocess.Popen([export.INTERP], stdin=subprocess.PIPE, stdout=subprocess.PIPE, text=True, bufsize=1)
+        self.sent = 0
+
+
 WORK = common.SCRATCH / "c02" / ("run%d" % os.getpid())  # private to this run (concurrent runs must not collide)
 
 
@@ -241,7 +251,7 @@ class Unit:
                     self.interp.p.kill()
                 except Exception:
                     pass
-                self.interp = export.Interp()
+                self.interp = PrivateInterp()
                 self.log_result(status="reference-timeout", tags=sorted(tags), **base)
                 return
             if o[0] != "done":
@@ -340,7 +350,7 @@ class Unit:
         self.tick("frontend", t0)
         if mod is None:
             return {"uid": self.uid, "seed": self.seed, "status": "rejected", "detail": err, "results": [], "src": src}
-        self.interp = export.Interp()
+        self.interp = PrivateInterp()
         try:
             p = mod.foo
             cfgs = [v for v in vars(mod).values() if type(v).__name__ == "Config"]
